@@ -14,7 +14,7 @@
 (* mode) and printed as @@BAD lines for the orchestrator, which reproduces *)
 (* each in a fresh process before reporting anything.                      *)
 (***************************************************************************)
-EXTENDS DocProps, TLC, Json, IOUtils
+EXTENDS DocProps, DocFilters, TLC, Json, IOUtils
 
 Trace == ndJsonDeserialize(IOEnv.TRACE_FILE)
 
@@ -35,10 +35,15 @@ PredsOf(p) ==
       [] p = "C03" -> {"C03_ParaAllOrNothing"}
       [] p = "C04" -> {"C04_NoLeakInText", "C04_NoLeakInHtml"}
       [] p = "C05" -> {"C05_NoScriptStyleElements", "C05_NoHandlers", "C05_NoIdClassStyle", "C05_NoForeignData"}
-      [] p = "C07" -> {"C07_ChainsPreserved", "C07_TableWhole"}
-      [] p = "C08" -> {"C08_MediaFollowText", "C08_AtMostOneLead"}
+      [] p = "C07" -> {"C07_ChainsPreserved", "C07_TableWhole", "C07_TagPairContentIffEnclosesContent", "C07_TagsBalanced"}
+      [] p = "C08" -> {"C08_MediaFollowText", "C08_AtMostOneLead", "C08_FilterOrder", "C08_RelevantFollowsText",
+                       "C08_LeadImagePromotesAtMostOne"}
       [] p = "C09" -> {"C09_TextEqualsHtml", "C09_ImagesFromHtml", "C09_WordCount"}
       [] OTHER     -> {}
+
+\* predicates evaluated on the hook-recorded element lists (action Filters), not on the observation
+ElementListPreds == {"C07_TagPairContentIffEnclosesContent", "C07_TagsBalanced", "C08_FilterOrder",
+                     "C08_RelevantFollowsText", "C08_LeadImagePromotesAtMostOne"}
 
 Holds(name, s, o) ==
     CASE name = "C02_NothingInvented"       -> C02_NothingInvented(s, o)
@@ -70,7 +75,7 @@ Class(name, s, o) ==
 
 Failed(p, s, o) ==
     IF o.err \/ ~o.nodeok THEN {}      \* nothing was produced: no observation to judge here (C01)
-    ELSE {name \in PredsOf(p) : ~Holds(name, s, o)}
+    ELSE {name \in PredsOf(p) \ ElementListPreds : ~Holds(name, s, o)}
 
 IsEvent(e) == l <= Len(Trace) /\ Trace[l].ev = e /\ l' = l + 1
 
@@ -91,10 +96,31 @@ Return == /\ IsEvent("Return")
           /\ Trace[l].run = run
           /\ pc' = "returned"
           /\ obs' = Trace[l].obs
-          /\ bad' = Failed(prop, src, Trace[l].obs)
-          /\ \A name \in bad' :
+          /\ bad' = bad \cup Failed(prop, src, Trace[l].obs)
+          /\ \A name \in Failed(prop, src, Trace[l].obs) :
                 PrintT(<<"@@BAD", ToJson([run |-> run, inv |-> name, class |-> Class(name, src, Trace[l].obs)])>>)
           /\ UNCHANGED <<run, prop, src>>
+
+\* the element list before the document filters and after each of them, as recorded by the hooks:
+\* replayed through DocFilters.tla (C08: Relevant / LeadImage, C07: Nested)
+FilterFailures(e) ==
+    (IF e.order # <<"RelevantElements", "LeadImage", "NestedElementRetainer">> THEN {"C08_FilterOrder"} ELSE {})
+    \cup (IF ~MediaFollowsText(e.before, e.rel) THEN {"C08_RelevantFollowsText"} ELSE {})
+    \cup (IF ~LeadImageMay(e.rel, e.lead) THEN {"C08_LeadImagePromotesAtMostOne"} ELSE {})
+    \cup (IF Balanced(e.lead) /\ ~(PairContentIffEnclosesContent(e.lead, e.nested) /\ NonTagsUntouched(e.lead, e.nested))
+          THEN {"C07_TagPairContentIffEnclosesContent"} ELSE {})
+    \cup (IF ~Balanced(e.before) THEN {"C07_TagsBalanced"} ELSE {})
+
+Filters == /\ IsEvent("Filters")
+           /\ pc = "called"
+           /\ Trace[l].run = run
+           /\ LET e == Trace[l]
+                  b == {n \in FilterFailures(e) : \E q \in PredsOf(prop) : q = n}
+              IN  /\ bad' = bad \cup b
+                  /\ \A name \in b : PrintT(<<"@@BAD", ToJson([run |-> run, inv |-> name, class |-> "element-list"])>>)
+                  /\ (Relevant(e.before) # e.rel \/ (Balanced(e.lead) /\ Nested(e.lead) # e.nested)) =>
+                        PrintT(<<"@@DRIFT", ToJson([run |-> run, what |-> "document filters differ from DocFilters.tla"])>>)
+           /\ UNCHANGED <<pc, run, prop, src, obs>>
 
 \* the call did not return a result: not a behaviour of a total machine
 Crash == /\ (IsEvent("Panic") \/ IsEvent("Hang"))
@@ -108,7 +134,7 @@ SkipRun == /\ IsEvent("Skip")
            /\ pc \in {"idle", "returned", "crashed"}
            /\ UNCHANGED <<pc, run, prop, src, obs, bad>>
 
-Next == Call \/ Return \/ Crash \/ SkipRun
+Next == Call \/ Filters \/ Return \/ Crash \/ SkipRun
 
 TraceSpec == Init /\ [][Next]_vars
 
